@@ -224,7 +224,10 @@ class PestleS(Scenario):
     name = "pestle"
 
     def prepare(self, work, seed):
-        m, p = _plt(work, "plt_p", seed, payload="positive", names=["rho", "volFrac", "q"])
+        # many small boxes on the finest level, values over several decades: a sum whose grouping
+        # or order depended on the schedule or on the worker count would differ in its last bits
+        m, p = _plt(work, "plt_p", seed, payload="positive", names=["rho", "volFrac", "q"], bf=2, maxsz=2,
+                    base=[8, 8, 4], nlevels=2, full_refine=True)
         return {"p": p}
 
     def run(self, ctx, out, serial=False):
